@@ -153,11 +153,6 @@ mut('c11_replace_only_same_algorithm', 'C11', 'recipe_manager.py',
 mut('c11_first_applicable_wins_in_group', 'C11', 'recipe_manager.py',
     '          result_config = selected_recipe.op_config\n          result_key = selected_recipe.algorithm_key\n',
     '          result_config = selected_recipe.op_config\n          result_key = selected_recipe.algorithm_key\n          break\n')
-mut('c11_skip_checks_ignored_at_resolution', 'C11', 'algorithm_manager_api.py',
-    '    if op_quantization_config.skip_checks:\n      return\n',
-    '    if op_quantization_config.skip_checks and tfl_op_name != qtyping.TFLOperationName.ALL_SUPPORTED and self.is_op_registered(quantization_algorithm, tfl_op_name):\n      return\n',
-    'skip_checks honoured only for registered operators')
-
 # ------------------------------------------------------------------ C12
 mut('c12_revert_noquant_fix', 'C12', 'recipe_manager.py',
     "          or 'op_config' in config\n", '', 'the repaired defect b9dd5ab returns')
@@ -181,13 +176,6 @@ mut('c12_todict_drops_falsy', 'C12', 'qtyping.py',
   @classmethod
   def from_dict(cls, params: dict[str, Any]) -> 'OpQuantizationConfig':''',
     'op-level to_dict omits False fields; nested symmetric=False vanishes and reloads as True')
-mut('c12_save_writes_live_recipe', 'C12', 'quantizer.py',
-    '''    self._result = QuantizationResult(
-        self.get_quantization_recipe(), quantized_model
-    )''',
-    '''    self._result = QuantizationResult(
-        self._recipe_manager, quantized_model
-    )''', 'placeholder; completed below')
 mut('c12_fromdict_ignores_skip_checks', 'C12', 'qtyping.py',
     "    if 'activation_tensor_config' in params_copy:\n      params_copy['activation_tensor_config'] = (",
     "    params_copy.pop('skip_checks', None)\n    if 'activation_tensor_config' in params_copy:\n      params_copy['activation_tensor_config'] = (")
@@ -195,6 +183,14 @@ mut('c12_load_sorted_rules', 'C12', 'quantizer.py',
     '        recipe = json.load(json_file)\n',
     "        recipe = sorted(json.load(json_file), key=lambda r: r['regex'])\n",
     'rules re-ordered when a recipe is loaded from a file')
+mut('c12_tensor_fromdict_drops_dtype', 'C12', 'qtyping.py',
+    "    params_copy = copy.deepcopy(params)\n    return cls(**params_copy)",
+    "    params_copy = copy.deepcopy(params)\n    params_copy.pop('dtype', None)\n    return cls(**params_copy)",
+    'tensor dtype not restored on load (float16 weights reload as INT)')
+mut('c12_cached_export_stale_after_load', 'C12', 'quantizer.py',
+    '    return self._recipe_manager.get_quantization_recipe()\n',
+    "    if getattr(self, '_exported', None) is None:\n      self._exported = self._recipe_manager.get_quantization_recipe()\n    return self._exported\n",
+    'exported recipe cached on the Quantizer, invalidated by update but not by load')
 mut('c12_sample_recipe_stale', 'C12', 'recipes/sample_advanced_usage_recipe.json',
     '"granularity": "CHANNELWISE",\n        "dtype": "INT"\n      },\n      "compute_precision": "FLOAT"',
     '"channel_wise": true,\n        "dtype": "INT"\n      },\n      "compute_precision": "FLOAT"',
@@ -228,10 +224,9 @@ mut('c14_fromdict_no_copy', 'C14', 'qtyping.py',
 mut('c14_qsv_partial_copy', 'C14', 'params_generator.py',
     '      model_qsvs = copy.deepcopy(model_qsvs)\n', '      model_qsvs = dict(model_qsvs)\n',
     'shallow copy: in-place writes into per-tensor entries still reach the caller')
-mut('c14_module_level_results', 'C14', 'params_generator.py',
-    '    self.model_quant_results: dict[str, qtyping.TensorTransformationParams] = {}\n',
-    '    self.model_quant_results: dict[str, qtyping.TensorTransformationParams] = _RESULTS\n    _RESULTS.clear()\n',
-    'placeholder; completed below')
+mut('c14_hash_seed_order', 'C14', 'transformation_instruction_generator.py',
+    '    for tensor_name in params:\n', '    for tensor_name in set(params):\n',
+    'instructions generated in set-of-strings order: output depends on PYTHONHASHSEED')
 
 # ------------------------------------------------------------------ C16
 mut('c16_offset_before_padding', 'C16', 'model_modifier.py',
@@ -297,11 +292,9 @@ EXTRA = {
     ] = scope_configs
 
   # TODO''')],
-    'c12_save_writes_live_recipe': [(R + 'quantizer.py',
-                                     '    recipe = json.dumps(self.recipe)\n',
-                                     '    recipe = json.dumps(self.recipe.get_quantization_recipe())\n')],
-    'c14_module_level_results': [(R + 'params_generator.py',
-                                  'class ParamsGenerator:\n', '_RESULTS = {}\n\n\nclass ParamsGenerator:\n')],
+    'c12_cached_export_stale_after_load': [(R + 'quantizer.py',
+                                            '    self._recipe_manager.add_quantization_config(\n        regex, operation_name, op_config, algorithm_key\n    )\n',
+                                            '    self._recipe_manager.add_quantization_config(\n        regex, operation_name, op_config, algorithm_key\n    )\n    self._exported = None\n')],
 }
 
 
@@ -330,9 +323,7 @@ def run_one(m, runs):
     out['diff'] = sh('git -C %s diff' % wt).stdout
     b = sh('%s/tools/baseline_check.py %s' % (V, wt))
     out['suite'] = b.stdout.strip().splitlines()[0] if b.stdout.strip() else ''
-    if b.returncode != 0:
-      out['status'] = 'killed-by-suite'
-      return out
+    out['suite_kills'] = b.returncode != 0
     outdir = tempfile.mkdtemp(prefix='aeq-mut-out-')
     t0 = time.time()
     env = dict(os.environ, AEQ_REPO=wt, AEQ_OUT_DIR=outdir, VERIF_RUNS=str(runs))
@@ -344,6 +335,8 @@ def run_one(m, runs):
     out['harness'] = [l[:300] for l in lines if l.startswith('HARNESS-ERROR')][:3]
     out['status'] = 'caught' if c.returncode == 1 and out['violation_lines'] else \
         ('missed' if c.returncode == 0 else 'harness-error')
+    if out['suite_kills']:
+      out['status'] += ' (suite kills it too)'
     vs = [l for l in lines if l.startswith('VIOLATION')]
     if vs:
       rp = vs[0].split('replay=')[1]
@@ -372,7 +365,7 @@ def main():
   for m in todo:
     r = run_one(m, runs)
     results.append(r)
-    print('%-40s %-4s %-16s %s %s' % (r['name'], r['prop'], r['status'],
+    print('%-40s %-4s %-30s %s %s' % (r['name'], r['prop'], r['status'],
                                       (r.get('violation_lines') or [''])[-1][:110], r.get('harness') or ''),
           flush=True)
   path = os.path.join(V, 'mutants', 'RESULTS.json')
